@@ -551,7 +551,7 @@ theorem self_loop_same_residue (ns : List MNode) (u : Int) (h : (ns.find? (fun n
 
 def exBlock : Mol :=
   { nodes := [(0, { name := some "B1", resid := some 1 }), (1, { name := some "D" })],
-    edges := [(0, 1)], inters := [("bonds", { atoms := [0, 1], params := "1 0.3", version := 0 })] }
+    edges := [(0, 1)], inters := [("bonds", { atoms := [0, 1], params := "1 0.3", version := some 0 })] }
 
 def exMol : MolIn :=
   { atoms := [⟨20, 6, "X", "A", false⟩, ⟨21, 6, "X", "A", false⟩, ⟨10, 5, "X", "A", false⟩,
